@@ -44,7 +44,7 @@ def kbd(keys, layers, reqs, extra="", defcfg="", neutral=False):
 
 
 def pair(name, keys, reqs, o, n, nfiles=1, start=None, kinds=None, qmax=2, maxatt=1, settle=None, rnd_gaps=None,
-         pre=5, post=3):
+         pre=5, post=3, env=None, env_reqs=None):
     """o, n: dict(layers=[(name,[actions])], extra=, defcfg=)"""
     def both(c, **kw):
         return kbd(keys, c["layers"], reqs, c.get("extra", ""), c.get("defcfg", ""), **kw)
@@ -64,6 +64,7 @@ def pair(name, keys, reqs, o, n, nfiles=1, start=None, kinds=None, qmax=2, maxat
     return {"name": name, "keys": list(keys), "reqs": reqs, "texts": texts, "btexts": btexts, "first": first,
             "nfiles": nfiles, "start": start or (["O"] + ["N"] * (nfiles - 1)),
             "kinds": kinds or ["N", "S", "missing"], "qmax": qmax, "maxatt": maxatt, "settle": settle, "pre": pre, "post": post,
+            "env": list(env if env is not None else keys) + list(env_reqs if env_reqs is not None else [q["key"] for q in reqs]),
             "rnd_gaps": rnd_gaps or [0, 1, 1, 2, 3, 5]}
 
 
@@ -103,8 +104,9 @@ def family(tier):
     # three files, all request kinds (F3)
     fam.append(pair("files3", ["a"], R4,
                     {"layers": [("l0", ["a"])]}, {"layers": [("n0", ["1"])]},
-                    nfiles=3, start=["O", "N", "N"], kinds=["N", "S", "O"] if q else ["N", "O", "S", "missing", "X"],
-                    maxatt=2 if q else 3, pre=3 if q else 4, post=3 if q else 4))
+                    nfiles=3, start=["O", "N", "N"], kinds=["N", "S"] if q else ["N", "O", "S", "missing", "X"],
+                    maxatt=2 if q else 3, pre=2 if q else 3, post=2 if q else 3, env=[],
+                    env_reqs=["r", "n", "p"] if q else None))
     if not q:
         fam.append(pair("unmod", ["a", "b"], R1,
                         {"layers": [("l0", ["(unmod x)", "lsft"])]}, {"layers": [("n0", ["1", "2"])]},
@@ -269,7 +271,8 @@ def gen_mc(p, wd, tier):
     # the graph is explored with the index semantics of the code ("requested") so that nothing is pruned behind the
     # known deviation F3x; the statement semantics ("inuse") are applied to the recorded traces
     text = MC_TEMPLATE % dict(mod=mod, consts=consts, cfgofkind=cfgofkind, postfail='{"X"}',
-                              keys="{" + ", ".join(str(k) for k in keys) + "}", qmax=p["qmax"], maxatt=p["maxatt"], prebudget=p["pre"], postbudget=p["post"],
+                              keys="{" + ", ".join(str(cfgdesc.code(k)) for k in p["env"]) + "}",
+                              qmax=p["qmax"], maxatt=p["maxatt"], prebudget=p["pre"], postbudget=p["post"],
                               kinds="{" + ", ".join(tla_val(k) for k in p["kinds"]) + "}",
                               monparams=tla_val(mon_params(p, "requested", 0)))
     open(os.path.join(wd, mod + ".tla"), "w").write(text)
@@ -524,24 +527,33 @@ def run(tier, seed):
     evaluations = 0
     kinds_seen = set()
     lane_cases = []
-    for p in fam:
-        check_texts(p, wd)
-        mod, keys, age = gen_mc(p, wd, tier)
+    from concurrent.futures import ThreadPoolExecutor
+
+    def explore(p):
+        pwd = workdir("c15/" + p["name"])
+        check_texts(p, pwd)
+        mod, keys, age = gen_mc(p, pwd, tier)
         t0 = time.time()
-        r = run_tlc(wd, mod, workers=8, timeout=1500 if tier != "quick" else 600, heap="6g")
+        r = run_tlc(pwd, mod, workers=4 if tier == "quick" else 8, timeout=1500 if tier != "quick" else 900, heap="4g")
+        return pwd, mod, age, r, t0
+    build_harness()
+    cfgdesc.keytable()
+    with ThreadPoolExecutor(max_workers=5 if tier == "quick" else 2) as ex:
+        explored = list(ex.map(explore, fam))
+    for p, (pwd, mod, age, r, t0) in zip(fam, explored):
         if r["rc"] == 124:
             raise ToolError("TLC timed out on %s" % mod)
         if r["error"] and not r["violated"]:
             raise ToolError("TLC error on %s: %s (see %s)" % (mod, r["error"], r["out"]))
         inst = {"name": "c15_" + p["name"], "states": r["distinct"], "generated": r["generated"],
                 "tlc_wall_s": round(r["wall_s"], 1)}
-        edges = os.path.join(wd, mod + ".edges.ndjson")
+        edges = os.path.join(pwd, mod + ".edges.ndjson")
         inst["edges"] = extract_prints(r["out"], "EDGE", edges)
-        monerr = os.path.join(wd, mod + ".monerr.ndjson")
+        monerr = os.path.join(pwd, mod + ".monerr.ndjson")
         inst["n_monerr"] = extract_prints(r["out"], "MONERR", monerr)
-        panic = os.path.join(wd, mod + ".panic.ndjson")
+        panic = os.path.join(pwd, mod + ".panic.ndjson")
         inst["n_panic"] = extract_prints(r["out"], "PANIC", panic)
-        rr = replay_reload_edges(p, edges, wd, age)
+        rr = replay_reload_edges(p, edges, pwd, age)
         inst["replayed"] = rr["edges"]
         inst["drift"] = rr["mismatches"]
         inst["wall_s"] = round(time.time() - t0, 1)
@@ -639,18 +651,29 @@ def scenario_pairs():
              {"layers": [("n0", ["1", "(movemouse-up 3 10)"])]})
     add("mousespeed", p, [["d", c("a")], ["t", 3], ["w", 0, "N"], ["d", r], ["t", 2], ["u", r], ["t", 4], ["u", c("a")], ["t", 60],
                           ["d", c("b")], ["t", 8], ["u", c("b")], ["t", 50]])
-    # sequence mode entered before the request
+    # sequence mode entered before the request; the new configuration has its own leader key and sequences
     p = pair("s_seq", ["a", "b"], R1,
              {"layers": [("l0", ["sldr", "b"])], "extra": "(defvirtualkeys v1 x)\n(defseq v1 (b b))", "defcfg": "sequence-timeout 30"},
-             {"layers": [("n0", ["a", "b"])], "extra": "(defvirtualkeys w1 y)\n(defseq w1 (b a))", "defcfg": "sequence-timeout 30"})
+             {"layers": [("n0", ["sldr", "b"])], "extra": "(defvirtualkeys w1 y)\n(defseq w1 (b))", "defcfg": "sequence-timeout 20"})
     add("sequence", p, [["d", c("a")], ["t", 2], ["u", c("a")], ["t", 2], ["w", 0, "N"], ["d", r], ["t", 2], ["u", r], ["t", 3],
-                        ["d", c("b")], ["t", 2], ["u", c("b")], ["t", 3], ["d", c("a")], ["t", 2], ["u", c("a")], ["t", 80],
-                        ["d", c("b")], ["t", 2], ["u", c("b")], ["t", 50]], settle=60)
+                        ["d", c("b")], ["t", 2], ["u", c("b")], ["t", 80],
+                        ["d", c("a")], ["t", 2], ["u", c("a")], ["t", 2], ["d", c("b")], ["t", 2], ["u", c("b")], ["t", 50]], settle=60)
+    # global overrides only in the new configuration
+    p = pair("s_ovr", ["a", "b"], R1, {"layers": [("l0", ["a", "lsft"])]},
+             {"layers": [("n0", ["a", "lsft"])], "extra": "(defoverrides (lsft a) (x))"})
+    add("overrides", p, [["d", c("a")], ["t", 2], ["u", c("a")], ["t", 2], ["w", 0, "N"], ["d", r], ["t", 2], ["u", r], ["t", 40],
+                         ["d", c("b")], ["t", 2], ["d", c("a")], ["t", 3], ["u", c("a")], ["t", 2], ["u", c("b")], ["t", 40]])
     # a failed lrld-next, then lrld-next again (F3: relative to the file in use)
     p = pair("s_idx", ["a"], R4, {"layers": [("l0", ["a"])]}, {"layers": [("n0", ["1"])]}, nfiles=3, start=["O", "S", "N"])
     n_ = c("n")
     add("failed_next_then_next", p, [["d", n_], ["t", 2], ["u", n_], ["t", 10], ["d", n_], ["t", 2], ["u", n_], ["t", 40],
                                      ["d", c("a")], ["t", 2], ["u", c("a")], ["t", 40]])
+    # every request kind over three valid files: next next next prev prev prev num(3) lrld
+    p = pair("s_cyc", ["a"], R4, {"layers": [("l0", ["a"])]}, {"layers": [("n0", ["1"])]}, nfiles=3, start=["O", "N", "O"])
+    cyc = []
+    for key in ["n", "n", "n", "p", "p", "p", "m", "r", "p", "n"]:
+        cyc += [["d", c(key)], ["t", 2], ["u", c(key)], ["t", 6], ["d", c("a")], ["t", 2], ["u", c("a")], ["t", 4]]
+    add("cycle3", p, cyc + [["t", 30]])
     # a request that fails, the file is repaired later, no new request: nothing may be loaded
     p = pair("s_fix", ["a", "b"], R1, {"layers": [("l0", ["a", "b"])]}, {"layers": [("n0", ["1", "2"])]})
     add("repaired_later", p, [["w", 0, "S"], ["d", r], ["t", 2], ["u", r], ["t", 10], ["w", 0, "N"], ["t", 1200],
